@@ -45,7 +45,10 @@ Inductive sev :=
 | ESample                     (* sweeper: read the clock, sample every entry that has an expiry *)
 | EProc (k : N)               (* sweeper: handle its candidate for k *)
 | ELazySee (i k : N)          (* a read-modify-write call finds the current generation expired *)
-| ELazyRetire (i : N).        (* ... and calls retire_expired_if_current *)
+| ELazyRetire (i : N)         (* ... and calls retire_expired_if_current *)
+| EIncr (k d : N).            (* atomic_increment without TTL on a live or absent counter: the new
+                                 generation has no expiry (an expired one goes through ELazySee /
+                                 ELazyRetire first; then this is the call's continuation) *)
 
 Inductive sout := SUnit | SVal (v : option N) | SBool (b : bool).
 
@@ -113,6 +116,11 @@ Definition sstep (s : sstate) (e : sev) : sstate * sout :=
           (guarded_remove s1 k g t false, SUnit)
       | None => (s, SUnit)
       end
+  | EIncr k d =>
+      match aget k (ss_tbl s) with
+      | Some g => if expired_at g (ss_now s) then (s, SVal None) else (publish s k 0 (sg_val g + d), SVal (Some (sg_val g + d)))
+      | None => (publish s k 0 d, SVal (Some d))
+      end
   end.
 
 Definition sinit : sstate := mkss [] 0 1 0 [] [] [].
@@ -128,6 +136,6 @@ Definition sfinal (s : sstate) (es : list sev) : sstate := fst (srun s es).
 (* does the event come from a client writing or deleting key k? *)
 Definition client_write_on (k : N) (e : sev) : bool :=
   match e with
-  | EPut k' _ _ | ETtl k' _ | EDel k' => k' =? k
+  | EPut k' _ _ | ETtl k' _ | EDel k' | EIncr k' _ => k' =? k
   | _ => false
   end.
